@@ -81,6 +81,11 @@ func ValidatePricing(pricing Pricing) error {
 		if !p.EndTime.After(p.StartTime) || (i > 0 && p.StartTime.Before(pricing.PromotionsByTime[i-1].EndTime)) {
 			return sdkerrors.Wrapf(ErrInvalidPricing, "invalid timing promotion %d", i)
 		}
+
+		// the times are stored as protobuf timestamps, which begin with year 1 (RFC 3339 admits year 0)
+		if p.StartTime.Before(time.Time{}) {
+			return sdkerrors.Wrapf(ErrInvalidPricing, "invalid timing promotion %d: time before year 1", i)
+		}
 	}
 
 	// CONTRACT:
